@@ -336,9 +336,125 @@ def rule_P8(ctx: Ctx) -> None:
     from sa.rules import c13
 
     c13.rule_V2(ctx)
+    # the same by bounded abstract evaluation (each reachable cell exactly once); decides forms of the queries the structural rule does not know
+    c13.neighbour_queries_rule("C03.P8", [], ["C13.V2"], component_once=True)(ctx)
+
+
+def _endpoint_cases():
+    """abstract mazes (shape, edges, generation_meta, component) for the endpoint rule: a tree with dead ends and junctions, a maze with a
+    cycle, and a percolated maze whose recorded component is a strict subset of the grid"""
+    from sa import absmaze as AM
+
+    out = []
+    t23 = {((0, 0), (0, 1)), ((0, 1), (0, 2)), ((0, 1), (1, 1)), ((1, 0), (1, 1)), ((1, 1), (1, 2))}          # tree on 2x3: junctions at (0,1), (1,1)
+    out.append(((2, 3), t23, None, AM.cells((2, 3))))
+    out.append(((2, 3), t23, {"fully_connected": True}, AM.cells((2, 3))))
+    ring = {e for e in AM.lattice_edges(3, 3) if (1, 1) not in e} | {((1, 0), (1, 1))}                          # 3x3 ring with a spur: one dead end
+    out.append(((3, 3), ring, None, AM.cells((3, 3))))
+    perc = {((0, 0), (0, 1)), ((0, 1), (1, 1)), ((1, 1), (1, 2))}                                               # percolation: component of (0,0); (0,2), (1,0) isolated
+    comp = sorted(AM.bfs(perc, (0, 0)))
+    out.append(((2, 3), perc, {"fully_connected": False, "visited_cells": set(comp)}, comp))
+    out.append(((2, 2), {((0, 0), (0, 1)), ((0, 0), (1, 0)), ((0, 1), (1, 1))}, None, AM.cells((2, 2))))
+    return out
+
+
+def _endpoint_deviations(index, case, opts, limit=2):
+    "all draws of generate_random_path on one abstract maze under one option combination; (runs, deviations, undecided)"
+    from sa import absmaze as AM
+    from sa.absnp import MODELS, Arr
+    from sa.absobj import AbstractClass
+    from sa.choice import explore, models
+    from sa.fold import EvalRaised, Unknown
+
+    shape, es, meta, comp = case
+    adj = AM.adjacency(es)
+    a_s, a_e, d_s, d_e, neq = opts
+    comp_set = set(comp)
+
+    def ok_start(c):
+        return c in comp_set and (a_s is None or c in set(a_s)) and (not d_s or len(adj.get(c, ())) == 1)
+
+    def ok_end(c):
+        return c in comp_set and (a_e is None or c in set(a_e)) and (not d_e or len(adj.get(c, ())) == 1)
+    default = (a_s, a_e, d_s, d_e) == (None, None, False, False)
+    bad, unk = [], []
+    produced: set = set()
+    n = 0
+
+    def run(sc):
+        ac = AbstractClass(index, f"{LM}.LatticeMaze", max_steps=150_000, extra_calls={**MODELS, **models(sc),
+                           "self.find_shortest_path": lambda a, b: ("PATH", tuple(a.data if isinstance(a, Arr) else a), tuple(b.data if isinstance(b, Arr) else b))})
+        me = AM.maze_obj(shape, es)
+        me.attrs["generation_meta"] = None if meta is None else dict(meta)
+        args = [True, None if a_s is None else [list(c) for c in a_s], None if a_e is None else [list(c) for c in a_e], d_s, d_e, neq]
+        return ac.call(me, "generate_random_path", args)
+    try:
+        for choices, out in explore(run, max_runs=3000):
+            n += 1
+            if isinstance(out, EvalRaised):
+                if out.exc_name not in ("ValueError",):
+                    bad.append({"found": f"raises {out.exc_name}", "choices": choices})
+                continue
+            if not (isinstance(out, tuple) and len(out) == 3 and out[0] == "PATH"):
+                bad.append({"found": repr(out)[:80], "expected": "the solver's path between the drawn endpoints", "choices": choices})
+                continue
+            _, st, en = out
+            produced.add((st, en))
+            why = []
+            if not ok_start(st):
+                why.append("start violates the options / lies outside the component")
+            if not ok_end(en):
+                why.append("end violates the options / lies outside the component")
+            if (neq or default) and st == en:
+                why.append("start == end although endpoints must be distinct here")
+            if why and len(bad) < limit:
+                bad.append({"start": st, "end": en, "why": why, "choices": choices})
+        # every admissible pair can be drawn (the draw ranges over the whole candidate set, as the pinned tree's does)
+        valid = {(s_, e_) for s_ in comp if ok_start(s_) for e_ in comp if ok_end(e_) and not ((neq or default) and s_ == e_)}
+        never = sorted(valid - produced)
+        if never and len(bad) < limit:
+            bad.append({"never_drawn": never[:3], "admissible_pairs": len(valid), "drawn_pairs": len(produced),
+                        "why": ["an admissible endpoint pair is produced by no outcome of the random draws (a candidate is skipped by the index range)"]})
+    except Unknown as e:
+        unk.append(str(e)[:160])
+    for b in bad:
+        b.update({"grid": list(shape), "edges": sorted(es), "generation_meta": sorted(meta) if meta else None,
+                  "options": {"allowed_start": a_s, "allowed_end": a_e, "deadend_start": d_s, "deadend_end": d_e, "endpoints_not_equal": neq}})
+    return n, bad[:limit], unk
+
+
+def rule_P9(ctx: Ctx) -> None:
+    """bounded semantic check of the endpoint sentence (E15, nondeterministic): generate_random_path is interpreted on abstract mazes under
+    every combination of the endpoint options, once per possible outcome of its random draws; every returned pair must lie in the component,
+    honour allowed_start / allowed_end / deadend_* and be distinct when endpoints_not_equal (or no option) is given"""
+    import itertools
+
+    from sa import absmaze as AM
+
+    f = ctx.index.func(f"{LM}.LatticeMaze.generate_random_path")
+    cases = _endpoint_cases()
+    jobs = []
+    for case in cases:
+        cells = AM.cells(case[0])
+        lists = [None, [cells[0], cells[-1], cells[1]], [cells[-1]]]   # no list / a list with dead ends and junctions (possibly outside the component) / a single cell
+        for a_s, a_e, d_s, d_e, neq in itertools.product(lists, lists, (False, True), (False, True), (False, True)):
+            jobs.append((case, (a_s, a_e, d_s, d_e, neq)))
+    res = AM.parallel_map(lambda j: _endpoint_deviations(ctx.index, j[0], j[1]), jobs)
+    n_runs = sum(r[0] for r in res)
+    bad = [b for r in res for b in r[1]]
+    unk = [u for r in res for u in r[2]]
+    ctx.judge(f, False if bad else None if unk else True, {"abstract_mazes": len(cases), "option_combinations": len(jobs), "draw_sequences_explored": n_runs,
+                                                            "deviations": bad[:3], "undecided": unk[:2]},
+              "for every outcome of the random draws: both endpoints lie in the connected component, honour the allowed lists and the dead-end options, and differ "
+              "when endpoints_not_equal is set or no endpoint option is given; and every admissible pair is the outcome of some draw",
+              "a generated maze's endpoints ignore an endpoint option (or coincide when they must not)")
+    if not bad and not unk:
+        ctx.cover([f.qualname], by="C03.P9", supersedes=["C03.P3"], whole_rules=[],
+                  bound=f"{len(cases)} abstract mazes x {len(jobs) // len(cases)} option combinations, {n_runs} draw sequences")
 
 
 RULES = [
+    Rule("C03.P9", rule_P9, floor=1, doc="bounded semantic check: every draw of generate_random_path honours the endpoint options"),
     Rule("C03.P8", rule_P8, floor=3, doc="the component endpoints are drawn from lists every reachable cell once (C13.V2 re-judged)"),
     Rule("C03.P1", rule_P1, floor=2, doc="pipeline dataflow"),
     Rule("C03.P2", rule_P2, floor=2, doc="every path ends in the solver on component endpoints"),
@@ -357,3 +473,13 @@ from sa import exits as _exits  # noqa: E402
 
 RULES.append(Rule("C03.RX", _exits.make_rule("C03", "C03.RX", _exits.SCOPES["C03"]), floor=1,
                   doc="rejection conditions: the anchored functions refuse inputs only under the conditions confirmed on the pinned tree (E16)"))
+
+from sa import exits as _exits_ms  # noqa: E402
+
+RULES.append(Rule("C03.MS", _exits_ms.make_state_rule("C03", "C03.MS", _exits_ms.SCOPES.get("C03", [])), floor=1,
+                  doc="no hidden state on the anchored path (module level, per object, memoising decorators): results do not depend on the history of the process (E17)"))
+
+from sa import exits as _exits_nw  # noqa: E402
+
+RULES.append(Rule("C03.NW", _exits_nw.make_narrowing_rule("C03", "C03.NW", _exits_nw.SCOPES.get("C03", [])), floor=1,
+                  doc="no new narrowing cast (8/16-bit element types) on the anchored path: coordinates, lengths and indices do not wrap (E18)"))
